@@ -150,6 +150,7 @@ def run(prog, tier, extra=None):
     R2 = res.rule("C03.ledger-owner", "only the wind/unwind primitives (and two named exceptions) mutate a UtxoSet", floor=6)
     R4 = res.rule("C03.full-before-apply", "wind/unwind upgrade the block to a full block in the same step before applying its transactions", floor=2)
     R5 = res.rule("C03.order", "wind proceeds oldest-first, unwind newest-first (index direction over the tip-first chain slices)", floor=2)
+    R7 = res.rule("C03.tx-apply-total", "Transaction::on_chain_reorganization applies every input and every output, in both directions, for every transaction type", floor=2)
     R6 = res.rule("C03.marker-by-hash", "a ring slot's longest-chain marker is set to the position of the block's hash (or cleared); ring positions are not computed with wrapping arithmetic", floor=2)
     R3 = res.rule("C03.index-owner", "only the table's bodies write the longest-chain index / in_longest_chain", floor=8)
 
@@ -231,12 +232,27 @@ def run(prog, tier, extra=None):
                         for x in _walk(e):
                             if x[0] == "index" and is_param(x[1], chain_param) and is_param(x[2], idx_param):
                                 indexed = True
-        # (b) the continuation of the same kind steps the index in the right direction
+        # (b) the continuation of the same kind steps the index in the right direction (the continuation may be chosen in a
+        # private helper that is handed the index: its parameters are replaced by the call's arguments)
         steps = []
+        cont_sites = []
         for blk in body.blocks:
             for st in blk["s"]:
                 if st[0] == "=" and st[2][0] == "agg" and st[2][1][0] == "adt" and st[2][1][1].endswith("WindingResult") and st[2][1][2] == cont:
-                    e0 = ch5.origin(st[2][2][0])
+                    cont_sites.append(ch5.origin(st[2][2][0]))
+        for bb, t in body.calls():
+            h = prog.bodies.get(t.get("res") or t.get("callee") or "")
+            if h is None or h.is_promoted or h.is_coroutine or not h.ty(0)["s"].endswith("WindingResult"):
+                continue
+            chh = _Ch(h)
+            outer = [ch5.origin(a) for a in t["args"]]
+            for blk in h.blocks:
+                for st in blk["s"]:
+                    if st[0] == "=" and st[2][0] == "agg" and st[2][1][0] == "adt" and st[2][1][1].endswith("WindingResult") and st[2][1][2] == cont:
+                        cont_sites.append(gate.subst_params(chh.origin(st[2][2][0]), outer))
+        for e0 in cont_sites:
+            if True:
+                if True:
                     x = _strip(e0)
                     if x[0] == "field" and x[1][0] == "bin":
                         x = x[1]
@@ -298,6 +314,8 @@ def run(prog, tier, extra=None):
 
     # R3
     fa = FieldAnalysis(prog)
+    from ._helpers import helper_closure, root as _root
+    index_cov = helper_closure(prog, INDEX_WRITERS)        # table entries and private helpers that only run as part of one
     for p, b in cg.bodies.items():
         if "::tests::" in p or "/test/" in b.file:
             continue
@@ -310,16 +328,59 @@ def run(prog, tier, extra=None):
                 hits.append((s[1], "in_longest_chain ="))
         for bb, what in hits:
             res.instance(R3)
-            if p not in INDEX_WRITERS:
+            if _root(p) not in index_cov:
                 res.add(Finding(R3, "C03.index-owner|%s|%s" % (p, what), "%s writes the longest-chain index (%s) outside the wind/unwind machinery" % (p.replace(CORE, ""), what), b.loc(bb)))
     # add_block may only pre-set / reset the flag around validate(); any BlockRing reorganisation there bypasses the ledger
     ab = prog.body(BC + "add_block::{closure#0}")
+    ab_helpers = {h for h, c in index_cov.items() if c == _root(ab.path) and h != c}
     for bb, t in ab.calls():
-        if call_name(t) == REORG["blockring"]:
+        tgt = _root(t.get("res") or t.get("callee") or "")
+        via_helper = tgt in ab_helpers and any(call_name(t2) == REORG["blockring"] for hb in [prog.bodies.get(tgt)] if hb is not None for _, t2 in hb.calls())
+        if call_name(t) == REORG["blockring"] or via_helper:
             res.instance(R3)
             res.add(Finding(R3, "C03.index-owner|%sadd_block::{closure#0}|BlockRing::on_chain_reorganization|unpaired" % BC,
                             "add_block rewrites the longest-chain index (BlockRing::on_chain_reorganization) without unwinding the UTXO set and the wallet: "
                             "the index stops describing the chain the ledger was built from", ab.loc(bb)))
+    # R7: wind and unwind are inverse to each other only if the per-transaction step touches all inputs and all outputs whatever the
+    # direction and the transaction type (amount == 0 is handled inside Slip): no exit of Transaction::on_chain_reorganization is
+    # reachable without passing the loop over `from` and the loop over `to` that call Slip::on_chain_reorganization
+    TOCR = CORE + "consensus::transaction::Transaction::on_chain_reorganization"
+    tb = prog.body(TOCR)
+    if tb is None:
+        raise LookupError("Transaction::on_chain_reorganization not found")
+    from ..expr import Chaser as _Ch7, has_field as _hf7, walk as _wk7
+    ch7 = _Ch7(tb)
+    SLIP_OCR = CORE + "consensus::slip::Slip::on_chain_reorganization"
+
+    def closure_calls_slip(e):
+        for y in _wk7(e):
+            if y[0] == "agg" and y[1][0] == "closure":
+                cb = prog.bodies.get(y[1][1])
+                if cb is not None and any((t2.get("res") or t2.get("callee")) == SLIP_OCR for _, t2 in cb.calls()):
+                    return True
+        return False
+    for side in ("from", "to"):
+        res.instance(R7)
+        sites = set()
+        for bb, t in tb.calls():
+            n = call_name(t) or ""
+            args = [ch7.origin(a) for a in t["args"]]
+            if n.rsplit("::", 1)[-1] in ("for_each", "try_for_each", "all", "fold") and args and _hf7(args[0], "transaction::Transaction", side) and any(closure_calls_slip(a) for a in args[1:]):
+                sites.add(bb)
+            if n == "std::iter::Iterator::next" and args and _hf7(args[0], "transaction::Transaction", side):
+                lp = tb.innermost_loop_containing([bb])
+                if lp is not None and any((tb.term(x).get("res") or tb.term(x).get("callee")) == SLIP_OCR for x in tb.natural_loop(lp) if tb.term(x)["k"] == "call"):
+                    sites.add(bb)
+        if not sites:
+            res.add(Finding(R7, "C03.tx-apply-total|%s|missing" % side, "Transaction::on_chain_reorganization no longer applies Slip::on_chain_reorganization to every slip of `%s`" % side, tb.loc(0)))
+            continue
+        pth = tb.find_path(0, tb.return_blocks(), blocked=sites)
+        if pth:
+            res.add(Finding(R7, "C03.tx-apply-total|%s|skipped" % side, "Transaction::on_chain_reorganization can return without applying the %s of the transaction (%s): winding and "
+                            "unwinding such a transaction are no longer inverse to each other, or a spent output stays spendable"
+                            % ("inputs" if side == "from" else "outputs", "a transaction type or a direction is exempted"), tb.loc(pth[-1])))
+        else:
+            res.sample({"rule": R7, "side": side, "sites": [tb.loc(x) for x in sorted(sites)], "verdict": "applied on every path"})
     # R6: the by-height index answers "which block of this height is on the longest chain" through RingItem.lc_pos. Outside the
     # deletion path (C04.index-delete-neutral) a store of Some(..) into it must be the position at which the block's *hash* was found
     # in the slot (a search of block_hashes), never a position guessed from the order of arrival; None clears it. And positions in the
